@@ -312,6 +312,9 @@ def debug_dump(run):
         (BUILD / "C15_debug.json").write_text(json.dumps({"oracle": run.oracle_fails, "corr": run.corr_broken}, indent=1, default=str))
 
 
+from c15_guard import guarded  # noqa: E402
+
+
 def main():
     run = Run("C15")
     run.rule = ("dispatch: every interned name x 10 class configurations (decorator/subclass/frozen/shadow/user-overrides/child class); "
@@ -347,23 +350,23 @@ def main():
     if sizes[0] != len(meta["names"]):
         raise Infra("driver binary is stale w.r.t. Gen/TcTables.lean")
     kinds = dispatch_tie(run, drv, meta)
-    from_td_tie(run, drv)
-    behaviour(run, drv, kinds, meta)
+    guarded(run, "from_td_tie", from_td_tie, run, drv)
+    guarded(run, "behaviour", behaviour, run, drv, kinds, meta)
     import c15_streams as S
-    S.torch_functions(run, drv, ["D1", "S1"] if run.tier == "quick" else ["D1", "S1", "Fz", "Ac", "Nc", "Sh", "D2"])
-    S.torch_mixed(run, ["D1", "S1"] if run.tier == "quick" else ["D1", "S1", "Fz", "Ac", "Nc", "Sh", "D2"])
-    S.typed_fields(run, drv)
-    S.items_stream(run, drv)
-    S.zero_d_setitem(run)
-    S.set_inplace_stream(run, drv)
-    S.set_tuple_stream(run, drv)
-    S.containers(run)
-    S.update_stream(run, drv)
-    S.tuple_pieces_stream(run)
-    S.option_probes(run, kinds)
-    S.options_stream(run, drv)
-    S.pytree_stream(run, drv)
-    S.history_stream(run)
+    guarded(run, "torch_functions", S.torch_functions, run, drv, ["D1", "S1"] if run.tier == "quick" else ["D1", "S1", "Fz", "Ac", "Nc", "Sh", "D2"])
+    guarded(run, "torch_mixed", S.torch_mixed, run, ["D1", "S1"] if run.tier == "quick" else ["D1", "S1", "Fz", "Ac", "Nc", "Sh", "D2"])
+    guarded(run, "typed_fields", S.typed_fields, run, drv)
+    guarded(run, "items_stream", S.items_stream, run, drv)
+    guarded(run, "zero_d_setitem", S.zero_d_setitem, run)
+    guarded(run, "set_inplace_stream", S.set_inplace_stream, run, drv)
+    guarded(run, "set_tuple_stream", S.set_tuple_stream, run, drv)
+    guarded(run, "containers", S.containers, run)
+    guarded(run, "update_stream", S.update_stream, run, drv)
+    guarded(run, "tuple_pieces_stream", S.tuple_pieces_stream, run)
+    guarded(run, "option_probes", S.option_probes, run, kinds)
+    guarded(run, "options_stream", S.options_stream, run, drv)
+    guarded(run, "pytree_stream", S.pytree_stream, run, drv)
+    guarded(run, "history_stream", S.history_stream, run)
     debug_dump(run)
     run.finish("proof")
 
